@@ -18,6 +18,7 @@ type entry struct {
 
 var table = map[string]entry{
 	"C02": {"exploration", checks.C02},
+	"C13": {"exploration", checks.C13},
 }
 
 func main() {
